@@ -268,6 +268,10 @@ BP = dict(params=dict(self='obj:GraphicalModel', potentials='obj:dict', logZ='bo
 
 # ------------------------------------------------------------------ exact inference: GraphicalModel.datavector
 class DataVectorHooks(LogNormHooks):
+    def init(self, eng, st):
+        LogNormHooks.init(self, eng, st)
+        st.ghost['n_expand_sites'] = z3.IntVal(0)
+
     """The full-vector query: the table on the attributes covered by the cliques sums to 1, is repeated over the attributes that
     are in no clique and rescaled.  Extern contracts used: expanding a table f onto a larger domain D repeats every cell
     |D| / |dom f| times (numpy broadcasting), so its sum is multiplied by that ratio; Domain.size() is the (positive) cell count
@@ -285,6 +289,13 @@ class DataVectorHooks(LogNormHooks):
         if short == 'size' and recv is not None and not args and isinstance(recv, (E.Obj, E.Bound)):
             return E.Num(self.size_of(eng, st, recv if isinstance(recv, E.Obj) else eng.bound_as_value(st, recv)), npy=True)
         if short == 'expand' and recv is not None and len(args) == 1 and (getattr(recv, 'ghost', None) or {}).get('sum') is not None:
+            # the full vector is laid out on the model's own domain (Factor.expand puts the axes in that domain's order, C14)
+            s2 = st.fork()
+            t, facts = eng.spec('same(__arg, self.domain)', s2, {'__arg': args[0]}, mode='prove')
+            for f in facts:
+                s2.assume(f)
+            eng.oblige(s2, 'site/table-expanded-onto-the-models-domain@L%d' % node.lineno, t, kind='call-site')
+            st.ghost['n_expand_sites'] = st.ghost.get('n_expand_sites', z3.IntVal(0)) + 1
             small = self.size_of(eng, st, eng.getattr(st, recv, 'domain', node))
             big = self.size_of(eng, st, args[0])
             return table(eng, 'expanded', recv.g('sum') * big / small)
@@ -295,7 +306,8 @@ class DataVectorHooks(LogNormHooks):
 
 GM_DATAVECTOR = dict(params=dict(self='obj:GraphicalModel', flatten='bool'), attr_types={('GraphicalModel', 'total'): 'real'},
                      requires=['self.total > 0'], division='abort', module_env={},
-                     ensures={'full-vector-sums-to-total': 'vecsum(result) == self.total'})
+                     ensures={'full-vector-sums-to-total': 'vecsum(result) == self.total',
+                              'laid-out-on-the-models-domain': 'ghost("n_expand_sites") == 1'})
 DV_ITEM = ('src/mbi/graphical_model.py', 'GraphicalModel.datavector', GM_DATAVECTOR)
 
 ITEMS = [('src/mbi/region_graph.py', 'RegionGraph.generalized_belief_propagation', oracle('RegionGraph', 'marginals'), 'C16'),
